@@ -129,8 +129,17 @@ def apply_op(ctx, w, op):
   elif k == "RESTART":
     route = op["route"]
     bw, by = M.weights_snapshot(w.model), w.y
+    # the optimizer state is saved too when the model was really trained and
+    # has not been rebuilt from JSON since (tf_keras builds deserialised
+    # layers outside their name scope, the optimizer slots of two such layers
+    # then collide in the HDF5 group whatever the layer classes are)
+    with_opt = bool(op.get("with_optimizer")) and getattr(
+        w, "fit_done", False) and not getattr(w, "cloned", False)
+    if with_opt:
+      ctx.probe("saved_with_optimizer_state")
     ok, m2 = guard(ctx, "restart:%s" % route, M.restart_model, w.model, route,
-                   w.scratch, None, bool(op.get("compile_load")), always=True)
+                   w.scratch, None, bool(op.get("compile_load")), with_opt,
+                   always=True)
     ctx.fault("restart_" + route)
     w.check_readonly("restart:" + route, bw, by,
                      weights_only=bool(op.get("no_compare")))
@@ -142,6 +151,8 @@ def apply_op(ctx, w, op):
       return
     if compare(ctx, w, m2, route) and op.get("replace"):
       w.model = m2
+      w.cloned = True
+      w.fit_done = False
       ctx.probe("continued_on_restarted_model")
   elif k == "TRAIN_CALLS":
     # forward passes with training=True: moves the state that is not touched
@@ -162,6 +173,27 @@ def apply_op(ctx, w, op):
     import tf_keras as keras
     w.model.compile(optimizer=keras.optimizers.SGD(0.01), loss="mse")
     ctx.fault("compile")
+  elif k == "FITSTEP":
+    # a real optimizer step (the optimizer then owns a slot per trainable
+    # variable of the model)
+    import tf_keras as keras
+    g = np.random.Generator(np.random.PCG64(int(op.get("seed", 0))))
+    n = int(op.get("n", 1))
+    xb = g.standard_normal((2 * n,) + M.INPUTS[w.mspec["input"]]).astype(
+        np.float32)
+    yb = g.standard_normal((2 * n,) + tuple(
+        w.model.output_shape[1:])).astype(np.float32)
+    opt = keras.optimizers.Adam(1e-3) if op.get("adam") else \
+        keras.optimizers.SGD(1e-3, momentum=0.5)
+    w.model.compile(optimizer=opt, loss="mse")
+    ok, _ = guard(ctx, "fit", lambda: w.model.fit(
+        xb, yb, batch_size=2, epochs=1, shuffle=False, verbose=0))
+    ctx.fault("real_fit_step")
+    set_phase(0)
+    if not ok:
+      return
+    w.fit_done = True
+    w.refresh()
   elif k == "READONLY":
     bw, by = M.weights_snapshot(w.model), w.y
     api = op["api"]
@@ -344,12 +376,17 @@ def generate(rng):
     k = rng.wpick([("RESTART", 6), ("PERTURB", 2), ("READONLY", 1.5),
                    ("TRAIN_CALLS", 1.2),
                    ("SAVE_FAULT", 2.5), ("EXPORT", 0.8), ("SCHED", 1.0),
-                   ("COMPILE", 0.5)])
+                   ("COMPILE", 0.5), ("FITSTEP", 0.6)])
     op = {"k": k}
     if k == "RESTART":
       op["route"] = rng.wpick(ROUTE_W)
       op["replace"] = rng.chance(0.3)
       op["compile_load"] = rng.chance(0.3)
+      op["with_optimizer"] = rng.chance(0.4)
+    elif k == "FITSTEP":
+      op["seed"] = rng.subseed()
+      op["n"] = rng.randrange(1, 3)
+      op["adam"] = rng.chance(0.5)
     elif k == "PERTURB":
       op["seed"] = rng.subseed()
       op["scale"] = rng.pick([1.0, 0.2, 3.0])
@@ -516,6 +553,20 @@ def directed():
          for k, v in l.items() if k in ("kq", "dq", "aq", "bidir", "as_cell",
                                         "rq", "sq")},
         sort_keys=True)), "seed": 1, "world": _single(l, kind), "ops": ops})
+  qd = {"t": "QDense", "units": 3, "use_bias": True, "kq": qb, "bq": qb}
+  ada = {"t": "QAdaptiveActivation", "act": "quantized_relu", "bits": 6,
+         "per_channel": False, "qdelay": 1, "ema_decay": 0.5}
+  for adam in (False, True):
+    out.append({"label": "directed:two-adaptive-activations-trained:%s" % (
+        "adam" if adam else "sgd"), "seed": 1,
+                "world": {"input": "vec", "wseed": 6, "out": "dense",
+                          "layers": [qd, ada, dict(qd), dict(ada)]},
+                "ops": [{"k": "FITSTEP", "seed": 3, "n": 2, "adam": adam},
+                        {"k": "RESTART", "route": "h5_path",
+                         "with_optimizer": True},
+                        {"k": "RESTART", "route": "h5_fileobj",
+                         "with_optimizer": True, "compile_load": True},
+                        {"k": "RESTART", "route": "clone"}]})
   # every layer class with STRING-configured quantizers in every role, after an
   # interrupted noise schedule changed the live quantizer objects: the layer
   # config must describe the live objects, not the constructor arguments
